@@ -111,7 +111,10 @@ namespace OpenMEEG {
 
     Normal Mesh::normal(const Vertex& v) const {
         Normal N(0);
-        for (const auto& triangle : triangles(v))
+        const auto& vtit = vertex_triangles.find(&v);
+        if (vtit==vertex_triangles.end()) // A vertex that no triangle uses has no normal.
+            return N;
+        for (const auto& triangle : vtit->second)
             N += triangle->normal();
         N.normalize();
         return N;
